@@ -155,6 +155,126 @@ def _lru_cache(it, a, kw, node):
     return I.IdentityDecorator()      # lru_cache(maxsize=…, typed=…)
 
 
+class BinDigits(AbstractValue):
+    """bin(n)[start:stop] for a symbolic int n: the binary digits as characters, most significant first"""
+    sort = "str"
+
+    def __init__(self, n, start=0, stop=None, kind="char", order="msb"):
+        # kind "char": characters of bin(n); kind "int": the integer digits (a list built by peeling n); order: which end first
+        self.n, self.start, self.stop, self.kind, self.order = n, start, stop, kind, order
+
+    def v_index(self, idx, it):
+        if isinstance(idx, slice) and idx.step in (None, 1) and self.start == 0 and self.stop is None \
+                and (idx.start is None or (isinstance(idx.start, int) and idx.start >= 0)) and idx.stop is None:
+            return BinDigits(self.n, idx.start or 0, None)
+        raise AnalysisError(f"index {idx!r} into bin() of a symbolic integer")
+
+    def __repr__(self):
+        return f"bin({self.n!r})[{self.start}:]"
+
+    def __deepcopy__(self, memo):
+        return self
+
+
+_STRUCT_FMT = {"B": (1, 0, 255), "b": (1, -128, 127), "H": (2, 0, 65535), "h": (2, -32768, 32767),
+               "I": (4, 0, 2 ** 32 - 1), "L": (4, 0, 2 ** 32 - 1), "Q": (8, 0, 2 ** 64 - 1)}
+
+
+class StructObj:
+    """struct.Struct(fmt) for a single big-endian integer field"""
+
+    def __init__(self, fmt):
+        self.fmt = fmt
+
+    def __deepcopy__(self, memo):
+        return self
+
+
+def _struct_pack_value(it, fmt, x, node):
+    import ast as _ast
+    if not (isinstance(fmt, str) and len(fmt) == 2 and fmt[0] in ">!" and fmt[1] in _STRUCT_FMT):
+        raise AnalysisError(f"{it.where(node)}: struct format {fmt!r} outside the fragment")
+    size, lo, hi = _STRUCT_FMT[fmt[1]]
+    if not is_sym(x):
+        if isinstance(x, bool) or not isinstance(x, int) or not lo <= x <= hi:
+            it.raise_exc("struct.error", "argument out of range", node)
+        return (x % 256 ** size).to_bytes(size, "big")
+    # out of range raises struct.error: decided from the path's facts, else both outcomes
+    if not it.truth(it.compare(_ast.GtE(), x, lo, node), node):
+        it.raise_exc("struct.error", "argument out of range", node)
+    if not it.truth(it.compare(_ast.LtE(), x, hi, node), node):
+        it.raise_exc("struct.error", "argument out of range", node)
+    return Term("i2osp", (x, size), "bytes")      # non-negative by the range test (signed formats: only their non-negative half)
+
+
+def _struct_Struct(it, a, kw, node):
+    return StructObj(a[0])
+
+
+def _struct_pack(it, a, kw, node):
+    if len(a) != 2:
+        raise AnalysisError(f"{it.where(node)}: struct.pack with {len(a) - 1} values")
+    return _struct_pack_value(it, a[0], a[1], node)
+
+
+def _islice(it, a, kw, node):
+    I = _I()
+    src = a[0]
+    if is_sym(src) or any(is_sym(x) for x in a[1:]):
+        raise AnalysisError(f"{it.where(node)}: itertools.islice with symbolic arguments")
+    items = list(it.iter_concrete(src, node))
+    if len(a) == 2:
+        lo, hi = 0, a[1]
+    else:
+        lo, hi = a[1] or 0, a[2]
+    if len(a) > 3 and a[3] not in (None, 1):
+        raise AnalysisError(f"{it.where(node)}: itertools.islice with a step")
+    out = I.GenItems(items[lo:hi] if hi is not None else items[lo:])
+    if getattr(src, "exc", None) is not None and (hi is None or hi > len(items)):
+        out.exc = src.exc             # the consumer runs past what the generator produced before raising
+    return out
+
+
+def _hash(it, a, kw, node):
+    # an opaque, non-injective integer (for str/bytes it also differs between processes)
+    return Term("hash", (_I()._hashable(a[0]),), "int")
+
+
+def _bin(it, a, kw, node):
+    if is_sym(a[0]):
+        return BinDigits(a[0])
+    return bin(a[0])
+
+
+def _eth_is_number(it, a, kw, node):
+    # eth_utils.is_number: isinstance(x, numbers.Number) — ints, but also floats, Fractions, Decimals, complex
+    v = a[0]
+    if isinstance(v, Term) and v.sort == "any":
+        return Term("is_number", (v,), "bool")
+    if isinstance(v, Term):
+        return v.sort in ("int", "bool", "float")
+    if is_sym(v):
+        return False
+    import numbers
+    return isinstance(v, numbers.Number)
+
+
+def _eth_is_integer(it, a, kw, node):
+    # eth_utils.is_integer: an int that is not a bool
+    r = _isinstance(it, [a[0], External("builtins.int")], {}, node)
+    if not it.truth(r, node):
+        return False
+    rb = _isinstance(it, [a[0], External("builtins.bool")], {}, node)
+    return it.logical_not(rb, node)
+
+
+def _eth_is_bytes(it, a, kw, node):
+    r = _isinstance(it, [a[0], External("builtins.bytes")], {}, node)
+    if it.truth(r, node):
+        return True
+    return _isinstance(it, [a[0], External("builtins.bytearray")], {}, node)
+
+
 def _iter(it, a, kw, node):
     I = _I()
     x = a[0]
@@ -279,6 +399,9 @@ def _enumerate(it, a, kw, node):
 
 
 def _reversed(it, a, kw, node):
+    if isinstance(a[0], BinDigits) and a[0].kind == "int":
+        d = a[0]
+        return BinDigits(d.n, d.start, d.stop, "int", "msb" if d.order == "lsb" else "lsb")
     return list(reversed(it.iter_concrete(a[0], node)))
 
 
@@ -610,7 +733,7 @@ def _reduce(it, a, kw, node):
 _NOINIT = object()
 
 _TABLE = {
-    "len": _len, "isinstance": _isinstance, "type": _type, "hasattr": _hasattr, "int": _int, "getattr": _getattr, "iter": _iter, "next": _next,
+    "len": _len, "isinstance": _isinstance, "type": _type, "hasattr": _hasattr, "int": _int, "getattr": _getattr, "iter": _iter, "next": _next, "bin": _bin, "hash": _hash, "itertools.islice": _islice, "struct.Struct": _struct_Struct, "struct.pack": _struct_pack,
     "bool": _bool, "range": _range, "zip": _zip, "enumerate": _enumerate, "reversed": _reversed,
     "list": _list, "tuple": _tuple, "sum": _sum, "all": _all, "any": _any, "max": _max, "min": _min,
     "pow": _pow, "bytes": _bytes, "bytearray": _bytearray, "set": _set, "ord": _ord, "repr": _repr,
@@ -621,6 +744,7 @@ _TABLE = {
     "importlib.metadata.version": _version,
     "collections.OrderedDict": _ordered_dict, "threading.Lock": _lock, "threading.RLock": _lock,
     "functools.lru_cache": _lru_cache, "functools.cache": _lru_cache,
+    "eth_utils.is_number": _eth_is_number, "eth_utils.is_integer": _eth_is_integer, "eth_utils.is_bytes": _eth_is_bytes,
 }
 
 
@@ -636,6 +760,10 @@ def call_method(it, name, obj, args, kwargs):
         if h.key is not None:
             return Term("HMAC", (h.fn, I._hashable(_b2b(h.key)), I._hashable(_b2b(h.data))), "bytes")
         return Term("H", (h.fn, I._hashable(_b2b(h.data))), "bytes")
+    if name == "struct.pack_method":
+        if len(args) != 1:
+            raise AnalysisError("Struct.pack with several values")
+        return _struct_pack_value(it, obj.fmt, args[0], None)
     if name == "hash.copy":
         return I.HashObj(obj.fn, obj.data, key=obj.key)
     if name == "hash.update":
